@@ -53,6 +53,17 @@ def taint_closure(fn, seeds, through_calls=True):
                         if x.get("k") == "ref" and x.get("dk") in ("local", "param") and x["did"] not in tainted:
                             tainted.add(x["did"])
                             changed = True
+                # out-arguments: a local passed by non-const reference next to a tainted argument (path::append(abs, word))
+                pts = n.get("pt", [])
+                if any(a is not None and mentions(a, tainted) for a in args):
+                    for i, a in enumerate(args):
+                        t_ = fn.db_types[pts[i]] if i < len(pts) and pts[i] >= 0 else ""
+                        if a is not None and t_.endswith("&") and not t_.startswith("const ") and "&&" not in t_:
+                            for x in a.walk():
+                                if x.get("k") == "ref" and x.get("dk") in ("local", "param") and x["did"] not in tainted:
+                                    tainted.add(x["did"])
+                                    changed = True
+                                break
                 if n.get("ck") in ("member", "operator") and "obj" in n and name in (
                         "push_back", "emplace_back", "append", "insert", "assign", "operator=", "operator+=", "operator<<"):
                     if any(mentions(a, tainted) for a in args):
